@@ -242,6 +242,55 @@ def hasRead : List Phase → Bool
   | .read _ :: _ => true
   | .write _ _ :: rest => hasRead rest
 
+/-! ## history after the loss: re-Open / Close / more operations on the same `Channel` -/
+
+/-- where `Channel.Open` clears `readLoopExited`, if anywhere (read off the source by the translator:
+    `Gen.C06ReadLoop.flagStores`) -/
+inductive ClearAt
+  | never            -- no `Store(false)` (a `Channel` is single-use)
+  | afterLoopStart   -- only once the transport open has succeeded and the new read loop is started
+  | early            -- before that (e.g. first statement of `Open`)
+  deriving DecidableEq, Repr
+
+/-- the two facts a later operation depends on -/
+structure Conn where
+  flag : Bool   -- `readLoopExited`
+  loop : Bool   -- a read goroutine is running
+  deriving DecidableEq, Repr
+
+/-- what the caller / the transport does next -/
+inductive SEv
+  | lossEof    -- the transport reports end-of-stream to the running read loop
+  | openFail   -- `Open()` whose transport open fails (device refuses the connection)
+  | openOk     -- `Open()` whose transport open succeeds: a new connection, a new read loop
+  | close      -- `Close()`
+  | op         -- an operation that has to read (`Channel.Read` consults the flag first)
+  deriving DecidableEq, Repr
+
+/-- one event; for `op` the Boolean says whether the operation is refused with an error at once
+    (`true`) or goes on to the queue / waits for data (`false`) -/
+def sstep (p : ClearAt) (c : Conn) : SEv → Conn × Option Bool
+  | .lossEof => (if c.loop then { flag := true, loop := false } else c, none)
+  | .openFail => ({ c with flag := if p = .early then false else c.flag }, none)
+  | .openOk => ({ flag := if p = .never then c.flag else false, loop := true }, none)
+  | .close => (if c.loop then { flag := true, loop := false } else c, none)
+  | .op => (c, some c.flag)
+
+/-- run a history; returns the final state and, in order, how each operation fared -/
+def srun (p : ClearAt) : Conn → List SEv → Conn × List Bool
+  | c, [] => (c, [])
+  | c, e :: es =>
+    match sstep p c e with
+    | (c', none) => srun p c' es
+    | (c', some b) => let r := srun p c' es; (r.1, b :: r.2)
+
+/-- the clearing policy the extracted `Store` sites amount to -/
+def policyOf (stores : List (String × String × String)) : ClearAt :=
+  let clears := stores.filter fun (_, v, _) => v != "true"
+  if clears.isEmpty then .never
+  else if clears.all fun (f, _, w) => f == "Open" && w == "after-loop-start" then .afterLoopStart
+  else .early
+
 /-! ## the standard operations as programs -/
 
 /-- `Channel.SendInputB` -/
